@@ -3,8 +3,8 @@
    split_direct is the direct splitter of Model/ScriptX.v ("split at LF, drop one CR before it"); that it equals the
    regex-based split_lines of the shared model (`\r?\n` through the generic matcher) is checked by the correspondence on
    every run, not proved.  parse_lines = parse_script after line splitting; llines = the logical lines. *)
-From BS Require Import Model.Base Model.Regex Model.Num Model.ExprParser Model.Script Model.ScriptX
-  Proofs.ScriptFacts Proofs.C06 Proofs.C10.
+From BS Require Import Model.Base Model.Regex Model.Num Model.ExprParser Model.Script Model.ScriptX Model.Lower
+  Gen.Unicode Proofs.ScriptFacts Proofs.C06 Proofs.C10 Proofs.C10ws Proofs.C10wsExpr Proofs.C10wsIndent.
 
 (* ---- LF versus CRLF: both texts have the same lines ---- *)
 Theorem C10_crlf : forall lines, lines <> [] -> Forall no_lf lines -> Forall (fun l => ends_cr l = false) lines ->
@@ -64,10 +64,63 @@ Theorem C10_continuation : forall p1 s1 mids pl ix,
 Proof. exact continuation_many. Qed.
 Print Assumptions C10_continuation.
 
-(* C10_ws_tokens_partial — NOT proved: "breaking a line at any point where a space is allowed / changing indentation or
-   trailing whitespace yields the same statement" needs whitespace-insensitivity of every statement regex and of the
-   expression lexer; it is checked metamorphically by the direct oracle (harness/c10_oracle.py) at every inter-token
-   gap.  C10_stateless: parse_script / parse_expression of the model are Gallina functions, so determinism and absence
+(* ---- indentation / trailing whitespace of the keyword-only statements (statement classification of the shared model:
+   Model/Lower.v `classify`, with pstep ps n line = sbind (classify n line) (kstep ps n line) by Proofs/C07eq.v).
+   `white w`: every character of w is `\s` for the regex engine (no restriction to blanks/tabs; a line of parse_script
+   never contains LF anyway).  keyword_lines = else: endif endwhile endfor endfunction break continue with their kinds.
+   Proved through the REGENERATED regexes: the statement's own `^\s*kw\s*$` matches the padded text (the engine is complete
+   for look-ahead free regexes and never runs out of fuel: Proofs/RegexComplete.v) and every EARLIER regex of the cascade
+   does not match it (it requires a non-space character that is not in the text). ---- *)
+Theorem C10_ws_keyword_lines : forall l k, In (l, k) keyword_lines ->
+  forall n ws1 ws2, white ws1 -> white ws2 ->
+  Lower.classify n (ws1 ++ l ++ ws2) = Lower.classify n l /\ Lower.classify n l = ROk k.
+Proof. exact ws_keyword_lines. Qed.
+Print Assumptions C10_ws_keyword_lines.
+
+(* also whitespace before the colon of `else:` *)
+Theorem C10_ws_else_gap : forall n ws1 ws2 ws3, white ws1 -> white ws2 -> white ws3 ->
+  Lower.classify n (ws1 ++ U "else" ++ ws2 ++ U ":" ++ ws3) = ROk KElse.
+Proof. exact classify_else_gap. Qed.
+Print Assumptions C10_ws_else_gap.
+
+(* ---- leading whitespace in front of an expression: parse_expression gives the same tree; an error keeps its text and
+   its column moves with the text (c + |ws|), or stays 1 when the very first token is rejected (parser.py then reports the
+   whole text as the remainder).  eres_ws d a b relates a = parse_expression text and b = parse_expression (ws ++ text).
+   The premise `<> EFuel` is about the MODEL's fuel (2*|text|+4): that it always suffices is not proved here.
+   Proved through the regenerated token regexes `^\s*B` (Proofs/RegexShift.v: the engine's answer on ws ++ text is its
+   answer on text shifted by |ws|).  PARTIAL with respect to the clause: only a LEADING run, not the gaps between tokens. ---- *)
+Theorem C10_ws_expression_leading_partial : forall ws text, white ws -> parse_expression text <> EFuel ->
+  eres_ws (length ws) (parse_expression text) (parse_expression (ws ++ text)).
+Proof. exact parse_expression_ws. Qed.
+Print Assumptions C10_ws_expression_leading_partial.
+
+Theorem C10_ws_expression_leading_ok : forall ws text e, white ws ->
+  parse_expression text = EOk e -> parse_expression (ws ++ text) = EOk e.
+Proof. exact parse_expression_ws_ok. Qed.
+Print Assumptions C10_ws_expression_leading_ok.
+
+(* ---- INDENTATION of any statement line whose kind is not function-begin / jump / jumpif / return (indent_kind; an elif
+   whose condition parses): the indented line is classified as the same statement with the same names and expression trees.
+   (kstep, the lowering of Model/Lower.v, also receives the line TEXT, which it only stores for later error messages.)
+   15 of the 18 statement regexes are `^\s*B`: the engine's answer on the indented line is its answer on the line, shifted;
+   the 3 others have the `\s*` inside a group (`^(\s*async)?\s*function`, `^(\s*jump..)`, `^(\s*return..)`): for them only
+   "still does not match" is proved (needed by every statement after them in the cascade), so their own kinds are excluded.
+   PARTIAL: leading whitespace only. ---- *)
+Theorem C10_ws_indentation_partial : forall n ws line k, white ws -> indent_kind k = true ->
+  Lower.classify n line = ROk k -> Lower.classify n (ws ++ line) = ROk k.
+Proof. exact classify_indent. Qed.
+Print Assumptions C10_ws_indentation_partial.
+
+(* C10_ws_tokens_partial — the FULL clause "breaking a line at any point where a space is allowed / changing indentation or
+   trailing whitespace yields the same statement" needs whitespace-insensitivity of EVERY statement regex and of the
+   expression lexer at EVERY gap.  PROVED: the keyword-only statements with any indentation and trailing whitespace
+   (C10_ws_keyword_lines, C10_ws_else_gap); a leading whitespace run in front of an expression
+   (C10_ws_expression_leading_partial / _ok); indentation of every statement kind except function-begin, jump/jumpif
+   and return (C10_ws_indentation_partial).
+   NOT proved (oracle only): indentation of function-begin / jump / jumpif / return lines; trailing whitespace and inner
+   gaps of the statements that carry an expression or a name (assignment, function, if/elif/while/for, label, jump/jumpif,
+   return, include); whitespace between the tokens of an expression; these are checked metamorphically by the direct oracle (harness/c10_oracle.py) at every inter-token gap.
+   C10_stateless: parse_script / parse_expression of the model are Gallina functions, so determinism and absence
    of state between calls are definitional; on the implementation they are tested by interleaved repeated calls. *)
 
 (* ---- non-vacuity ---- *)
@@ -89,3 +142,36 @@ Example C10_ex_same_model :
   exists s, parse_lines [U "if a:"; U "  b = 1 + \00005c"; U "   2"; U "endif"] 1 = ROk s /\
             parse_lines [U "# c"; U "if a:"; U ""; U "  b = 1 + \00005c"; U "  # inside"; U "   2"; U "endif"; U ""] 5 = ROk s /\ length s = 3.
 Proof. eexists. split; [vm_compute; reflexivity | split; [vm_compute; reflexivity | reflexivity]]. Qed.
+
+Example C10_ex_ws_keyword :
+  white (U "   ") /\ white (U "  \000009") /\ In (U "else:", KElse) keyword_lines /\
+  Lower.classify 1 (U "   else:  \000009") = ROk KElse /\ Lower.classify 1 (U "\000009else  :") = ROk KElse /\
+  Lower.classify 7 (U "    endfunction ") = ROk KFnEnd /\ Lower.classify 7 (U "  continue\00000c") = ROk KContinue /\
+  Lower.classify 1 (U " else: x") <> ROk KElse.
+Proof.
+  repeat split; try (vm_compute; reflexivity).
+  - intros c I. vm_compute in I. repeat (destruct I as [<-|I]; [reflexivity|]). contradiction.
+  - intros c I. vm_compute in I. repeat (destruct I as [<-|I]; [reflexivity|]). contradiction.
+  - left. reflexivity.
+  - vm_compute. discriminate.
+Qed.
+
+Example C10_ex_ws_expression :
+  white (U " \000009 ") /\ parse_expression (U "fn(1, -x) + 'a'") <> EFuel /\
+  (exists e, parse_expression (U "fn(1, -x) + 'a'") = EOk e /\ parse_expression (U " \000009 fn(1, -x) + 'a'") = EOk e) /\
+  parse_expression (U "1 + )") = EErr (U "Syntax error") 4 /\ parse_expression (U "  1 + )") = EErr (U "Syntax error") 6 /\
+  parse_expression (U ")") = EErr (U "Syntax error") 1 /\ parse_expression (U "  )") = EErr (U "Syntax error") 1.
+Proof.
+  split; [intros c I; vm_compute in I; repeat (destruct I as [<-|I]; [reflexivity|]); contradiction|].
+  split; [vm_compute; discriminate|].
+  split; [eexists; split; vm_compute; reflexivity|].
+  repeat split; vm_compute; reflexivity.
+Qed.
+
+Example C10_ex_ws_indentation :
+  (exists k, indent_kind k = true /\ Lower.classify 3 (U "x = fn(1) + 2") = ROk k /\ Lower.classify 3 (U " \000009  x = fn(1) + 2") = ROk k) /\
+  (exists k, indent_kind k = true /\ Lower.classify 3 (U "for v, i in arr:") = ROk k /\ Lower.classify 3 (U "    for v, i in arr:") = ROk k) /\
+  (exists k, indent_kind k = true /\ Lower.classify 3 (U "elif a < 1:") = ROk k /\ Lower.classify 3 (U "  elif a < 1:") = ROk k) /\
+  (exists k, indent_kind k = true /\ Lower.classify 3 (U "include 'a.bare'") = ROk k /\ Lower.classify 3 (U "  include 'a.bare'") = ROk k) /\
+  (exists k, indent_kind k = true /\ Lower.classify 3 (U "fn(x, 'y')") = ROk k /\ Lower.classify 3 (U "  fn(x, 'y')") = ROk k).
+Proof. repeat split; (eexists; split; [|split; vm_compute; reflexivity]; reflexivity). Qed.
